@@ -3,6 +3,7 @@ package main
 // Calls: builtins, inlined closures, contract application, uncontracted havoc; maps; effects.
 
 import (
+	"os"
 	"fmt"
 	"go/token"
 	"go/types"
@@ -769,6 +770,9 @@ type Effects struct {
 	heap    map[string]bool
 	allHeap bool
 	allocs  bool
+	// a call whose target is not known statically: it may run any closure of the function,
+	// so every ghost variable and every captured local may change
+	unknownCall bool
 }
 
 func (g *Gen) effectsOf(fr *Frame, blocks map[*ssa.BasicBlock]bool) *Effects {
@@ -989,6 +993,16 @@ func (g *Gen) effCall(fr *Frame, c *ssa.CallCommon, eff *Effects, depth int) {
 				}
 			}
 		}
+		// function-valued arguments that are closures of the caller stay resolvable in the callee
+		for i, p := range callee.Params {
+			if i < len(c.Args) {
+				if _, isSig := p.Type().Underlying().(*types.Signature); isSig {
+					if cl := g.staticClosureVal(fr, c.Args[i]); cl != nil {
+						nf.vals[p] = Val{Clo: cl}
+					}
+				}
+			}
+		}
 		g.effBlocks(nf, callee.Blocks, eff, depth+1)
 		byRef()
 		return
@@ -1006,6 +1020,10 @@ func (g *Gen) effCall(fr *Frame, c *ssa.CallCommon, eff *Effects, depth int) {
 	}
 	if _, isFn := c.Value.(*ssa.Function); !isFn && !c.IsInvoke() {
 		touch = true
+		eff.unknownCall = true
+		if os.Getenv("GVC_DEBUG_EFF") != "" {
+			fmt.Fprintf(os.Stderr, "unknown call target: %s in %s\n", c.Value.String(), fr.fn.Name())
+		}
 	}
 	if touch {
 		eff.allHeap = true
@@ -1134,7 +1152,12 @@ func (g *Gen) staticClosureVal(fr *Frame, v ssa.Value) *Closure {
 		if r, ok := fr.vals[x]; ok && r.Clo != nil {
 			return r.Clo
 		}
-		return &Closure{Fn: x.Fn.(*ssa.Function)}
+		return g.staticBindings(fr, x)
+	case *ssa.Parameter:
+		if r, ok := fr.vals[x]; ok && r.Clo != nil {
+			return r.Clo
+		}
+		return nil
 	case *ssa.UnOp:
 		if x.Op == token.MUL {
 			var cell interface{}
@@ -1147,6 +1170,9 @@ func (g *Gen) staticClosureVal(fr *Frame, v ssa.Value) *Closure {
 				}
 			}
 			if cell != nil {
+				if cl, ok := fr.sibClos[cell]; ok {
+					return cl
+				}
 				// single static store of a closure into this cell
 				if al, ok := cell.(*ssa.Alloc); ok {
 					var found *Closure
@@ -1155,8 +1181,12 @@ func (g *Gen) staticClosureVal(fr *Frame, v ssa.Value) *Closure {
 						if st, ok := ref.(*ssa.Store); ok && st.Addr == al {
 							n++
 							switch sv := st.Val.(type) {
+							case *ssa.Parameter:
+								if r, ok := fr.vals[sv]; ok && r.Clo != nil {
+									found = r.Clo
+								}
 							case *ssa.MakeClosure:
-								found = &Closure{Fn: sv.Fn.(*ssa.Function)}
+								found = g.staticBindings(fr, sv)
 								if r, ok := fr.vals[sv]; ok && r.Clo != nil {
 									found = r.Clo
 								} else if g.topFrame != nil {
@@ -1177,6 +1207,30 @@ func (g *Gen) staticClosureVal(fr *Frame, v ssa.Value) *Closure {
 		}
 	}
 	return nil
+}
+
+// staticBindings: the closure a MakeClosure will create, with the bindings that are already
+// known in this frame (locals are allocated in the entry block, so their cells exist before
+// any loop whose body creates the closure).
+func (g *Gen) staticBindings(fr *Frame, mc *ssa.MakeClosure) *Closure {
+	cl := &Closure{Fn: mc.Fn.(*ssa.Function)}
+	var bs []Val
+	for _, b := range mc.Bindings {
+		var v Val
+		ok := false
+		switch x := b.(type) {
+		case *ssa.FreeVar:
+			v, ok = fr.free[x]
+		default:
+			v, ok = fr.vals[b]
+		}
+		if !ok {
+			return cl // unknown binding: callers treat unresolved free variables conservatively
+		}
+		bs = append(bs, v)
+	}
+	cl.Bindings = bs
+	return cl
 }
 
 func (g *Gen) findVal(mc *ssa.MakeClosure) *Closure {
